@@ -99,6 +99,24 @@ NEEDS = {
     'C18-eB': "use_same_signal=True, n_sim >= 2, noise > 0: noise added in place to one shared buffer (two edits)",
     'C19-eA': "n_jobs > 1, >= 2*n_workers centres, searchlight RDMs object subset or re-ordered before evaluation: blocks selected by 'index' values",
     'C19-eB': "Fortran-ordered or transposed mask: linear indices computed from memory strides",
+    'C04-fA': "only conditions cross-validated (k_rdm == 1, k_pattern >= 2) in bootstrap_crossval / eval_dual_bootstrap: ceiling taken from all conditions",
+    'C04-fB': "bootstrap_crossval with use_correction=False and n_cv >= 2: corrected variance returned anyway",
+    'C05-fA': "sets_random with n_cv >= 2: advertised training indices are a view of a buffer re-shuffled by later folds",
+    'C05-fB': "sets_k_fold with random=False and k_rdm >= 2: ceiling sets of later rdm groups hold group 0's test rdms",
+    'C09-fA': "integer (non-float) dissimilarity stacks and a pattern draw repeating a condition: NaN marking cast back to the integer dtype",
+    'C09-fB': "pattern draws with fewer than three distinct groups are silently redrawn",
+    'C10-fA': "concat where a later stack is ordered differently and the first stack's order is a non-involutive permutation of the sorted labels",
+    'C10-fB': "subsample_pattern(by=None) after a history that made 'index' differ from positions",
+    'C11-fA': "subset_time on a descriptor with a repeated value outside the window and >= 16 distinct selected float values (np.isin assume_unique)",
+    'C11-fB': "average_dataset_by with a non-finite value in one condition's rows: other conditions' averages become NaN",
+    'C12-fA': "pool_rdm (euclid / neg_riem_dist) of a single-RDM object returns an array shared with the source; later array write",
+    'C12-fB': "crossnobis with per-fold noise (list / 3-D array / dict) that is symmetric only up to round-off: caller's container rewritten",
+    'C16-fA': "HDF5 save with a ragged list descriptor (fallback path keeps the exception in a reference cycle): file not closed until the cycle collector runs",
+    'C16-fB': "load_results with an explicit file_type and a file name whose ending suggests the other format",
+    'C18-fA': "use_exact_signal with n_channel == n_cond exactly (eigh instead of ldl factor)",
+    'C18-fB': "explicit 0/1 design matrix with a row that is not one-hot (compound or null trial)",
+    'C19-fA': "mask voxel closer than the radius to a face of the volume (sphere size taken from a template)",
+    'C19-fB': "evaluate_models_searchlight with n_jobs > 1, explicit theta and a flexible model (theta not passed to the workers)",
 }
 
 
